@@ -36,38 +36,38 @@ theorem handler_iff (H : Hash) (cfg : Cfg) (s : St) (t i : Nat) (fate : Fate)
 /-- Every other datagram is dropped without the handler being invoked (in every state reachable in
     the tree's variant; for arbitrary unreachable states the log could additionally record a double
     close — `RV.Server.dropped_otherwise_false` — which `C07.closes_le_one` excludes). -/
-theorem dropped_otherwise (H : Hash) (cfg : Cfg) (hv : cfg.variant = .fixed) (nS nD : Nat)
+theorem dropped_otherwise (H : Hash) (cfg : Cfg) (hv : cfg.variant = .fixed) (conns : List Nat) (nD : Nat)
     (ls : List Label) (t i : Nat) (fate : Fate)
-    (ht : (run H cfg (init nS nD) ls).tasks[t]? = some (⟨i, .spawned fate⟩ : Task))
-    (hn : ¬ ∃ key p, fate = .handle key p ∧ key ∉ (run H cfg (init nS nD) ls).inflight.getD i []) :
-    ∃ s', step H cfg (run H cfg (init nS nD) ls) (.taskRun t) = some s' ∧
+    (ht : (run H cfg (initWith conns nD) ls).tasks[t]? = some (⟨i, .spawned fate⟩ : Task))
+    (hn : ¬ ∃ key p, fate = .handle key p ∧ key ∉ (run H cfg (initWith conns nD) ls).inflight.getD i []) :
+    ∃ s', step H cfg (run H cfg (initWith conns nD) ls) (.taskRun t) = some s' ∧
       s'.tasks[t]? = some (⟨i, .done⟩ : Task) ∧
-      s'.log = (run H cfg (init nS nD) ls).log ++ [.dropped t] ∧
-      s'.inflight = (run H cfg (init nS nD) ls).inflight :=
-  dropped_otherwise_reach H cfg hv nS nD ls t i fate ht hn
+      s'.log = (run H cfg (initWith conns nD) ls).log ++ [.dropped t] ∧
+      s'.inflight = (run H cfg (initWith conns nD) ls).inflight :=
+  dropped_otherwise_reach H cfg hv conns nD ls t i fate ht hn
 
 /-- At most one handler per (Serve call, source, identifier), under every schedule: the dedup table
     has no duplicates and holds exactly the keys of the handlers that are running. -/
-theorem at_most_one_inflight (H : Hash) (cfg : Cfg) (nS nD : Nat) (ls : List Label) (i : Nat) :
-    let s := run H cfg (init nS nD) ls
+theorem at_most_one_inflight (H : Hash) (cfg : Cfg) (conns : List Nat) (nD : Nat) (ls : List Label) (i : Nat) :
+    let s := run H cfg (initWith conns nD) ls
     (s.inflight.getD i []).Nodup ∧
     ∀ key, key ∈ s.inflight.getD i [] ↔ ∃ t : Nat, s.tasks[t]? = some (⟨i, .inHandler key⟩ : Task) := by
-  have hI := InvG_run H cfg nS nD ls
+  have hI := InvG_run H cfg conns nD ls
   exact ⟨hI.nodup i, hI.mem i⟩
 
 /-- Once a handler has returned, its key is free again: the same identifier is served again. -/
-theorem released_after_return (H : Hash) (cfg : Cfg) (nS nD : Nat) (ls : List Label) (t i : Nat) (key : Key)
-    (ht : (run H cfg (init nS nD) ls).tasks[t]? = some ⟨i, .inHandler key⟩) :
-    ∃ s', step H cfg (run H cfg (init nS nD) ls) (.taskFinish t) = some s' ∧ key ∉ s'.inflight.getD i [] := by
-  exact released_after_return' H cfg nS nD ls t i key ht
+theorem released_after_return (H : Hash) (cfg : Cfg) (conns : List Nat) (nD : Nat) (ls : List Label) (t i : Nat) (key : Key)
+    (ht : (run H cfg (initWith conns nD) ls).tasks[t]? = some ⟨i, .inHandler key⟩) :
+    ∃ s', step H cfg (run H cfg (initWith conns nD) ls) (.taskFinish t) = some s' ∧ key ∉ s'.inflight.getD i [] := by
+  exact released_after_return' H cfg conns nD ls t i key ht
 
 /-- The handler never sees a packet the parser rejects (server clause of C02): every handlerStart
     event belongs to a goroutine whose datagram was classified `handle`. -/
-theorem handler_only_if_parsed (H : Hash) (cfg : Cfg) (nS nD : Nat) (ls : List Label) (t : Nat) (key : Key)
-    (h : Event.handlerStart t key ∈ (run H cfg (init nS nD) ls).log) :
-    ∃ i, (run H cfg (init nS nD) ls).tasks[t]? = some ⟨i, .inHandler key⟩ ∨
-         (run H cfg (init nS nD) ls).tasks[t]? = some ⟨i, .done⟩ := by
-  exact (InvG_run H cfg nS nD ls).log t key h
+theorem handler_only_if_parsed (H : Hash) (cfg : Cfg) (conns : List Nat) (nD : Nat) (ls : List Label) (t : Nat) (key : Key)
+    (h : Event.handlerStart t key ∈ (run H cfg (initWith conns nD) ls).log) :
+    ∃ i, (run H cfg (initWith conns nD) ls).tasks[t]? = some ⟨i, .inHandler key⟩ ∨
+         (run H cfg (initWith conns nD) ls).tasks[t]? = some ⟨i, .done⟩ := by
+  exact (InvG_run H cfg conns nD ls).log t key h
 
 /-- A reply written by the handler (Response of the request, any attributes, a reply code) encodes
     with a response authenticator that is valid for the request datagram under the peer's secret. -/
